@@ -16,8 +16,9 @@ RULE = ("histories of 1..12 operations applied in turn to one tree object, drawn
         "current tree.  Starting trees: rooted / unrooted / multifurcating, 3..14 tips, parent slots anywhere, lengths "
         "all / mixed / none, supports, named inner nodes, comments.  After EVERY step: pointer-level audit, enumerations, "
         "Newick text re-read by the reference reader, exact structural equality with the model state.  The history stops at "
-        "the first refusal.  thorough: every history of length <= 2 over a fixed alphabet of 36 operation instances on every "
-        "rooted/unrooted/multifurcating shape with <= 5 tips, plus 20000 random histories.  meta n_<op> = number of steps "
+        "the first refusal.  thorough: every history of length <= 2 over a fixed alphabet of 32 operation instances on every "
+        "rooted/unrooted/multifurcating shape with <= 5 tips (266 shapes), every history of length 3 on the 3-tip shapes, plus 20000 "
+        "random histories.  meta n_<op> = number of steps "
         "of that operation in the generated history; outcome tag = full | stop@<operation that refused>, with the share of "
         "observed states on which the text oracle applied (nw-all/part/none).  non-trivial = at least one step succeeded; "
         "distinct = distinct case text")
@@ -33,28 +34,9 @@ LEVEL_TEXT = ("theorems in coq/Properties/C03.v: wf is preserved by every operat
               "structural equality with the Go tree after every step of every history")
 LEVEL_NOTE = ""
 
-def _msg(case):
-    f = case.get("fields") or []
-    return f[0] if f else ""
-
-def _tree_before_failure(case):
-    """the tree (node dict) observed just before the step that failed, from the observation"""
-    try:
-        o = alist(parse_sexp(case["obs"]))
-        steps = o["steps"]
-        prev = alist(steps[-2]) if len(steps) >= 2 else alist(o["start"])
-        return sx_to_tree(prev["tree"])
-    except Exception:
-        return None
-
-def _outgroup_two_tips(case):
-    """RerootOutGroup dereferences nil on a tree that has only two tips (UnRoot leaves it rooted at a tip)"""
-    if "(outgroup): crash: runtime error: invalid memory address or nil pointer dereference" not in _msg(case):
-        return False
-    t = _tree_before_failure(case)
-    return t is not None and n_nodes(t) <= 3 and len(leaves(t)) <= 2
-
-MATCHERS = {"C03-outgroup-two-tips-panic": _outgroup_two_tips}
+# One defect found by this check is fixed in /repo (a7e3451 RerootOutGroup dereferenced nil on a two-tip tree): no open
+# finding, no matcher.
+MATCHERS = {}
 
 NEEDS_INDEX = {"graft", "insert", "merge", "collapse_depth", "prune"}
 OPS = ["reroot", "unroot", "outgroup", "midpoint", "rotate", "sort", "prune", "collapse_len", "collapse_sup",
@@ -235,10 +217,12 @@ def small_shapes(rng, g, sizes):
             out.append(t)
     return out
 
-def exhaustive(rng, g, sizes, sample=None):
+def exhaustive(rng, g, sizes, sample=None, maxlen=2):
     A = alphabet()
     out = []
     hist = [[a] for a in A] + [[a, b] for a in A for b in A]
+    if maxlen >= 3:
+        hist = [[a, b, c] for a in A for b in A for c in A]
     for t in small_shapes(rng, g, sizes):
         hs = hist if sample is None else rng.sample(hist, sample)
         tt = T(t)
@@ -254,6 +238,7 @@ def gen(rng, tier):
         out.append(random_history(rng, g))
     if tier == "thorough":
         out += exhaustive(rng, g, [3, 4, 5])
+        out += exhaustive(rng, g, [3], maxlen=3)
     elif tier == "quick":
         out += exhaustive(rng, g, [3, 4], sample=8)
     return out
